@@ -147,6 +147,14 @@ fn main() {
 	if args.first().map(|s| s.as_str()) == Some("mapped") {
 		std::panic::set_hook(Box::new(|_| {}));
 	}
+	if args.first().map(|s| s.as_str()) == Some("unordn") {
+		// `unordn JSON JSON`: unordered_eq(A, B) and unordered_eq(B, A) on the real parsed values
+		use json_syntax::{Parse, UnorderedPartialEq, Value};
+		let (a, _) = Value::parse_str(&args[1]).unwrap();
+		let (b, _) = Value::parse_str(&args[2]).unwrap();
+		println!("{} {}", a.unordered_eq(&b), b.unordered_eq(&a));
+		return;
+	}
 	if args.first().map(|s| s.as_str()) == Some("unord") {
 		// `unord k=v,k=v k=v,k=v`: unordered_eq(A, B) and unordered_eq(B, A) on the real Object
 		use json_syntax::{Object, UnorderedPartialEq, Value};
